@@ -265,7 +265,7 @@ func c13Gen(c *Ctx) {
 	emit("pe.all", "empty", nil)
 	emit("pe.all", "mz-only", []byte("MZ"))
 	// many section headers that all name the same large range: the hashed stream is nsec x size
-	c13Eval(c, Case{"op": "untrusted", "ep": "pe.all", "class": "many-overlapping-sections", "cert": hx(cert.Raw), "b": "-", "overlap_nsec": int64(c.N(5000, 12000)), "overlap_size": int64(1 << 20)})
+	c13Eval(c, Case{"op": "untrusted", "ep": "pe.all", "class": "many-overlapping-sections", "cert": hx(cert.Raw), "b": "-", "overlap_nsec": int64(c.P(5000, 12000)), "overlap_size": int64(1 << 20)})
 	c13Eval(c, Case{"op": "untrusted", "ep": "pe.all", "class": "many-overlapping-sections", "cert": hx(cert.Raw), "b": "-", "overlap_nsec": int64(200), "overlap_size": int64(64 << 10)})
 	// signatures
 	seeds := p7Seeds(c, false)
